@@ -97,15 +97,44 @@ theorem substitute_min (f : Fmt) (hf : f.subst = some substXml) (pn : Option PSt
     have : f.cdataTags.contains n = false := hpn
     simp only [this, Bool.false_eq_true, if_false]
 
+/-- what the bridge needs of the function `Formatter.substitute` applies to a string under a given parent: it commutes with
+    `strip`, leaves whitespace alone and makes nothing empty. True of `substitute_xml` and of the identity (text below a
+    cdata-containing element — script, style — is not substituted). -/
+structure SubstOK (g : PStr → PStr) : Prop where
+  strip_comm : ∀ s, strip (g s) = g (strip s)
+  ws_fix : ∀ x, (∀ c ∈ x, isSpace c = true) → g x = x
+  ne : ∀ s, s ≠ [] → g s ≠ []
+
+theorem substOK_xml : SubstOK substXml :=
+  ⟨strip_substXml, substXml_ws, by
+    intro s hs e
+    cases s with
+    | nil => exact hs rfl
+    | cons a t =>
+      have : esc a ≠ [] := by unfold esc; split <;> (try split) <;> (try split) <;> simp
+      simp [substXml, this] at e⟩
+
+theorem substOK_id : SubstOK (fun s => s) := ⟨fun _ => rfl, fun _ _ => rfl, fun _ h => h⟩
+
+theorem substitute_ok (f : Fmt) (hf : f.subst = some substXml) (pn : Option PStr) :
+    ∃ g, SubstOK g ∧ ∀ s, substitute f pn s = g s := by
+  cases pn with
+  | none => exact ⟨substXml, substOK_xml, fun s => by simp [substitute, hf]⟩
+  | some n =>
+    by_cases h : f.cdataTags.contains n = true
+    · exact ⟨fun s => s, substOK_id, fun s => by simp only [substitute, hf, h, if_true]⟩
+    · exact ⟨substXml, substOK_xml, fun s => by simp only [substitute, hf, h, Bool.false_eq_true, if_false]⟩
+
 theorem render_ws (ci : SCls → ClsInfo) (hci : ∀ c, ci c = assumedMarkup c) (f : Fmt) (hf : f.subst = some substXml)
-    (pn : Option PStr) (hpn : PnOK f pn) (x : PStr) (hx : ∀ c ∈ x, isSpace c = true) :
+    (pn : Option PStr) (x : PStr) (hx : ∀ c ∈ x, isSpace c = true) :
     renderSpec ci f pn (ws x) = x := by
-  simp [ws, renderSpec, outputReady, hci, assumedMarkup, substitute_min f hf pn hpn, substXml_ws x hx]
+  obtain ⟨g, hg, hs⟩ := substitute_ok f hf pn
+  simp [ws, renderSpec, outputReady, hci, assumedMarkup, hs, hg.ws_fix x hx]
 
 theorem render_line (ci : SCls → ClsInfo) (hci : ∀ c, ci c = assumedMarkup c) (f : Fmt) (hf : f.subst = some substXml)
-    (pn : Option PStr) (hpn : PnOK f pn) (u : PStr) (hu : ∀ c ∈ u, isSpace c = true) (l : Int) (n : Node) :
+    (pn : Option PStr) (u : PStr) (hu : ∀ c ∈ u, isSpace c = true) (l : Int) (n : Node) :
     renderL ci f pn (line u l n) = rep u l ++ renderSpec ci f pn n ++ [10] := by
-  simp [line, renderL, render_ws ci hci f hf pn hpn _ (rep_ws u hu l), render_ws ci hci f hf pn hpn _ nl_ws]
+  simp [line, renderL, render_ws ci hci f hf pn _ (rep_ws u hu l), render_ws ci hci f hf pn _ nl_ws]
 
 theorem renderL_append (ci : SCls → ClsInfo) (f : Fmt) (pn : Option PStr) : ∀ (a b : List Node),
     renderL ci f pn (a ++ b) = renderL ci f pn a ++ renderL ci f pn b
@@ -123,7 +152,7 @@ theorem fullLine_ne (u : PStr) (l : Int) (p : PStr) (h : p ≠ []) : fullLine u 
 
 /-- the piece of a string and its line -/
 theorem str_line (ci : SCls → ClsInfo) (hci : ∀ c, ci c = assumedMarkup c) (f : Fmt) (hf : f.subst = some substXml)
-    (pn : Option PStr) (hpn : PnOK f pn) (u : PStr) (hu : ∀ c ∈ u, isSpace c = true) (pwt : Option (List PStr)) (l : Int)
+    (pn : Option PStr) (u : PStr) (hu : ∀ c ∈ u, isSpace c = true) (pwt : Option (List PStr)) (l : Int)
     (c : SCls) (s : PStr) :
     fullLine u l (strip (outputReady ci f pn c s)) = renderL ci f pn (prettyTree u pwt l (.str c s)) := by
   have h60 : isSpace 60 = false := by decide
@@ -135,22 +164,15 @@ theorem str_line (ci : SCls → ClsInfo) (hci : ∀ c, ci c = assumedMarkup c) (
       fullLine u l (strip (outputReady ci f pn c' s)) = renderL ci f pn (prettyTree u pwt l (.str c' s)) := by
     intro c' hc' hp
     rw [hp]
-    have hp : outputReady ci f pn c' s = substXml s := by
-      simp [outputReady, hci, hc', substitute_min f hf pn hpn]
-    rw [hp, strip_substXml]
+    obtain ⟨g, hg, hsub⟩ := substitute_ok f hf pn
+    have hp : ∀ x, outputReady ci f pn c' x = g x := by
+      intro x; simp [outputReady, hci, hc', hsub]
+    rw [hp, hg.strip_comm]
     by_cases hs : strip s = []
-    · simp [hs, substXml, fullLine, renderL]
-    · have hne : substXml (strip s) ≠ [] := by
-        intro e
-        apply hs
-        cases hst : strip s with
-        | nil => rfl
-        | cons a t =>
-          rw [hst] at e
-          have : esc a ≠ [] := by unfold esc; split <;> (try split) <;> (try split) <;> simp
-          simp [substXml, this] at e
-      rw [if_neg hs, render_line ci hci f hf pn hpn u hu, fullLine_ne u l _ hne]
-      simp [renderSpec, outputReady, hci, hc', substitute_min f hf pn hpn]
+    · have : g [] = [] := hg.ws_fix [] (by simp)
+      simp [hs, this, fullLine, renderL]
+    · rw [if_neg hs, render_line ci hci f hf pn u hu, fullLine_ne u l _ (hg.ne _ hs)]
+      simp [renderSpec, hp]
   cases c with
   | doctype =>
     have hp : outputReady ci f pn .doctype s = 60 :: (([33, 68, 79, 67, 84, 89, 80, 69, 32] ++ s) ++ [62]) ++ [10] := by
@@ -160,32 +182,32 @@ theorem str_line (ci : SCls → ClsInfo) (hci : ∀ c, ci c = assumedMarkup c) (
       have := BS.Pretty.strip_affixed 60 [33, 68, 79, 67, 84, 89, 80, 69, 32] s 62 [10] h60 h62 (by decide)
       simpa using this
     rw [hs, fullLine_ne u l _ (by simp)]
-    simp [prettyTree, renderL, render_ws ci hci f hf pn hpn _ (rep_ws u hu l), renderSpec, outputReady, hci, assumedMarkup]
+    simp [prettyTree, renderL, render_ws ci hci f hf pn _ (rep_ws u hu l), renderSpec, outputReady, hci, assumedMarkup]
   | comment =>
     have hp : outputReady ci f pn .comment s = 60 :: (([33, 45, 45] ++ s ++ [45, 45]) ++ [62]) := by
       simp [outputReady, hci, assumedMarkup]
     rw [hp, hbr, fullLine_ne u l _ (by simp), ← hp]
-    simp [prettyTree, render_line ci hci f hf pn hpn u hu, renderSpec]
+    simp [prettyTree, render_line ci hci f hf pn u hu, renderSpec]
   | cdata =>
     have hp : outputReady ci f pn .cdata s = 60 :: (([33, 91, 67, 68, 65, 84, 65, 91] ++ s ++ [93, 93]) ++ [62]) := by
       simp [outputReady, hci, assumedMarkup]
     rw [hp, hbr, fullLine_ne u l _ (by simp), ← hp]
-    simp [prettyTree, render_line ci hci f hf pn hpn u hu, renderSpec]
+    simp [prettyTree, render_line ci hci f hf pn u hu, renderSpec]
   | pi =>
     have hp : outputReady ci f pn .pi s = 60 :: (([63] ++ s) ++ [62]) := by
       simp [outputReady, hci, assumedMarkup]
     rw [hp, hbr, fullLine_ne u l _ (by simp), ← hp]
-    simp [prettyTree, render_line ci hci f hf pn hpn u hu, renderSpec]
+    simp [prettyTree, render_line ci hci f hf pn u hu, renderSpec]
   | xmlpi =>
     have hp : outputReady ci f pn .xmlpi s = 60 :: (([63] ++ s ++ [63]) ++ [62]) := by
       simp [outputReady, hci, assumedMarkup]
     rw [hp, hbr, fullLine_ne u l _ (by simp), ← hp]
-    simp [prettyTree, render_line ci hci f hf pn hpn u hu, renderSpec]
+    simp [prettyTree, render_line ci hci f hf pn u hu, renderSpec]
   | declaration =>
     have hp : outputReady ci f pn .declaration s = 60 :: (([63] ++ s ++ [63]) ++ [62]) := by
       simp [outputReady, hci, assumedMarkup]
     rw [hp, hbr, fullLine_ne u l _ (by simp), ← hp]
-    simp [prettyTree, render_line ci hci f hf pn hpn u hu, renderSpec]
+    simp [prettyTree, render_line ci hci f hf pn u hu, renderSpec]
   | preformatted =>
     -- a bare PreformattedString is not substituted; its stripped piece is the piece of the stripped string
     have hp : ∀ x, outputReady ci f pn .preformatted x = x := by intro x; simp [outputReady, hci, assumedMarkup]
@@ -193,7 +215,7 @@ theorem str_line (ci : SCls → ClsInfo) (hci : ∀ c, ci c = assumedMarkup c) (
     by_cases hs : strip s = []
     · simp [prettyTree, hs, fullLine, renderL]
     · simp only [prettyTree, if_neg hs]
-      rw [render_line ci hci f hf pn hpn u hu, fullLine_ne u l _ hs]
+      rw [render_line ci hci f hf pn u hu, fullLine_ne u l _ hs]
       simp [renderSpec, hp]
   | navigable => exact htext _ rfl (by simp [prettyTree])
   | stylesheet => exact htext _ rfl (by simp [prettyTree])
@@ -238,56 +260,67 @@ theorem prettyL_lit {ci : SCls → ClsInfo} {f : Fmt} {pwt : Option (List PStr)}
 
 mutual
 theorem pretty_eq_render (ci : SCls → ClsInfo) (hci : ∀ c, ci c = assumedMarkup c) (f : Fmt) (hf : f.subst = some substXml)
-    (u : PStr) (hu : ∀ c ∈ u, isSpace c = true) (pwt : Option (List PStr)) (iv : PStr → Bool) :
-    ∀ (n : Node) (pn : Option PStr) (k : Nat) (l : Int), PnOK f pn → renderWritable iv f n = true →
+    (u : PStr) (hu : ∀ c ∈ u, isSpace c = true) (pwt : Option (List PStr)) :
+    ∀ (n : Node) (pn : Option PStr) (k : Nat) (l : Int), noHidden n = true →
       prettyNode u l false (toP ci f pwt pn k n) = renderL ci f pn (prettyTree u pwt l n)
-  | .str c s, pn, k, l, hpn, _ => by
+  | .str c s, pn, k, l, _ => by
     simp only [toP, prettyNode, Bool.false_eq_true, if_false]
-    exact str_line ci hci f hf pn hpn u hu pwt l c s
-  | .tag i ks, pn, k, l, hpn, h => by
-    simp only [renderWritable, Bool.and_eq_true, Bool.not_eq_true'] at h
-    obtain ⟨⟨⟨hhid, hcd⟩, _⟩, hk⟩ := h
+    exact str_line ci hci f hf pn u hu pwt l c s
+  | .tag i ks, pn, k, l, h => by
+    simp only [noHidden, Bool.and_eq_true, Bool.not_eq_true'] at h
+    obtain ⟨hhid, hkw⟩ := h
     have hne : ∀ e o, formatTag f i e o ≠ [] := by
       intro e o
       obtain ⟨m, hm⟩ := formatTag_shape f i hhid e o
       rw [hm]; simp
     by_cases hv : (ks.isEmpty && i.cbe) = true
     · simp only [toP, prettyTree, hv, if_true, prettyNode, Bool.false_eq_true, if_false]
-      rw [fullLine_ne u l _ (hne true true), render_line ci hci f hf pn hpn u hu]
+      rw [fullLine_ne u l _ (hne true true), render_line ci hci f hf pn u hu]
       simp [renderSpec, hv]
     · have hv' : (ks.isEmpty && i.cbe) = false := by simpa using hv
       by_cases hp : isPre pwt i = true
       · simp only [toP, prettyTree, hv', hp, if_true, Bool.false_eq_true, if_false, prettyNode]
-        rw [render_line ci hci f hf pn hpn u hu]
+        rw [render_line ci hci f hf pn u hu]
         simp only [renderSpec, hv', Bool.false_eq_true, if_false, openLine, closeLine, hne false true, hne false false]
         rw [prettyL_lit]
         simp [List.append_assoc]
       · have hp' : isPre pwt i = false := by simpa using hp
-        have hkw : renderWritableL iv f ks = true := by
-          by_cases hiv : iv (fullName i) = true
-          · simp only [hiv, if_true, Bool.and_eq_true] at hk
-            rw [hk.1, hk.2] at hv'
-            exact absurd hv' (by simp)
-          · simp only [hiv, Bool.false_eq_true, if_false, Bool.and_eq_true] at hk
-            exact hk.2
-        have hpn' : PnOK f (some i.name) := hcd
         simp only [toP, prettyTree, hv', hp', Bool.false_eq_true, if_false, prettyNode]
-        rw [render_line ci hci f hf pn hpn u hu, fullLine_ne u l _ (hne false true), fullLine_ne u l _ (hne false false),
-          prettyL_eq_renderL ci hci f hf u hu pwt iv ks (some i.name) (k + 1) (l + 1) hpn' hkw]
+        rw [render_line ci hci f hf pn u hu, fullLine_ne u l _ (hne false true), fullLine_ne u l _ (hne false false),
+          prettyL_eq_renderL ci hci f hf u hu pwt ks (some i.name) (k + 1) (l + 1) hkw]
         simp only [renderSpec, List.isEmpty_cons, Bool.false_and, Bool.false_eq_true, if_false, renderL, renderL_append,
-          render_ws ci hci f hf (some i.name) hpn' _ nl_ws, render_ws ci hci f hf (some i.name) hpn' _ (rep_ws u hu l),
+          render_ws ci hci f hf (some i.name) _ nl_ws, render_ws ci hci f hf (some i.name) _ (rep_ws u hu l),
           List.append_nil]
         simp [List.append_assoc]
 theorem prettyL_eq_renderL (ci : SCls → ClsInfo) (hci : ∀ c, ci c = assumedMarkup c) (f : Fmt) (hf : f.subst = some substXml)
-    (u : PStr) (hu : ∀ c ∈ u, isSpace c = true) (pwt : Option (List PStr)) (iv : PStr → Bool) :
-    ∀ (ns : List Node) (pn : Option PStr) (k : Nat) (l : Int), PnOK f pn → renderWritableL iv f ns = true →
+    (u : PStr) (hu : ∀ c ∈ u, isSpace c = true) (pwt : Option (List PStr)) :
+    ∀ (ns : List Node) (pn : Option PStr) (k : Nat) (l : Int), noHiddenL ns = true →
       prettyL u l false (toPL ci f pwt pn k ns) = renderL ci f pn (prettyTreeL u pwt l ns)
-  | [], _, _, _, _, _ => rfl
-  | n :: ns, pn, k, l, hpn, h => by
-    simp only [renderWritableL, Bool.and_eq_true] at h
+  | [], _, _, _, _ => rfl
+  | n :: ns, pn, k, l, h => by
+    simp only [noHiddenL, Bool.and_eq_true] at h
     simp only [toPL, prettyL, prettyTreeL, renderL_append,
-      pretty_eq_render ci hci f hf u hu pwt iv n pn k l hpn h.1,
-      prettyL_eq_renderL ci hci f hf u hu pwt iv ns pn (k + size n) l hpn h.2]
+      pretty_eq_render ci hci f hf u hu pwt n pn k l h.1,
+      prettyL_eq_renderL ci hci f hf u hu pwt ns pn (k + size n) l h.2]
+end
+
+mutual
+theorem noHidden_of_writable (iv : PStr → Bool) (f : Fmt) : ∀ (n : Node), renderWritable iv f n = true → noHidden n = true
+  | .str _ _, _ => rfl
+  | .tag i ks, h => by
+    simp only [renderWritable, Bool.and_eq_true, Bool.not_eq_true'] at h
+    obtain ⟨⟨⟨hhid, _⟩, _⟩, hk⟩ := h
+    simp only [noHidden, hhid, Bool.not_false, Bool.true_and]
+    by_cases hiv : iv (fullName i) = true
+    · simp only [hiv, if_true, Bool.and_eq_true, List.isEmpty_iff] at hk
+      rw [hk.2]; rfl
+    · simp only [hiv, Bool.false_eq_true, if_false, Bool.and_eq_true] at hk
+      exact noHiddenL_of_writable iv f ks hk.2
+theorem noHiddenL_of_writable (iv : PStr → Bool) (f : Fmt) : ∀ (ns : List Node), renderWritableL iv f ns = true → noHiddenL ns = true
+  | [], _ => rfl
+  | n :: ns, h => by
+    simp only [renderWritableL, Bool.and_eq_true] at h
+    simp only [noHiddenL, noHidden_of_writable iv f n h.1, noHiddenL_of_writable iv f ns h.2, Bool.and_self]
 end
 
 /-! ### the pre-order numbering gives distinct identities -/
